@@ -1815,3 +1815,637 @@ func nil1LookupTested(p *core.Prog, rep *core.Report) {
 		}
 	}
 }
+
+// ---- DT4: the stored size, its metadata record and the element change together ---------------------------------
+
+func dt4SizePersisted(p *core.Prog, rep *core.Report) {
+	R := p.R
+	rep.Rule("DT4", "a size change is persisted with its element: in package datatype, after a store that changes the metadata's size field by +-1, every path to a success return passes (a) an engine Put (DB or Batch) whose value is the metadata's encoding and (b) for -1 in the hash / set / sorted-set commands an engine Delete, for +1 an engine Put of another value (the element) - a size that changes alone, or an element that changes without the size, makes later replies (counts, existence flags) wrong")
+	inPkg := func(fn *ssa.Function) bool {
+		return fn.Package() != nil && fn.Package().Pkg.Path() == core.ModPath+"/datatype"
+	}
+	isPut := func(c *ssa.Call) bool {
+		f := c.Common().StaticCallee()
+		return f != nil && f.Name() == "Put" && (core.RecvNamed(f) == R.DB || core.RecvNamed(f) == R.Batch)
+	}
+	isDel := func(c *ssa.Call) bool {
+		f := c.Common().StaticCallee()
+		return f != nil && f.Name() == "Delete" && (core.RecvNamed(f) == R.DB || core.RecvNamed(f) == R.Batch)
+	}
+	fromEncode := func(v ssa.Value) bool {
+		for _, o := range core.Origins(v) {
+			if c, ok := o.(*ssa.Call); ok {
+				if f := c.Common().StaticCallee(); f != nil && strings.HasPrefix(f.Name(), "encode") && inPkg(f) {
+					if n := core.RecvNamed(f); n != nil && strings.Contains(strings.ToLower(n.Obj().Name()), "meta") {
+						return true
+					}
+				}
+			}
+		}
+		return false
+	}
+	avoid := func(from ssa.Instruction, partner func(ssa.Instruction) bool) string {
+		b := from.Block()
+		for j := indexIn(from) + 1; j < len(b.Instrs); j++ {
+			if partner(b.Instrs[j]) {
+				return ""
+			}
+		}
+		esc := ""
+		seen := map[*ssa.BasicBlock]bool{}
+		var dfs func(x *ssa.BasicBlock)
+		dfs = func(x *ssa.BasicBlock) {
+			if esc != "" {
+				return
+			}
+			if r, ok := x.Instrs[len(x.Instrs)-1].(*ssa.Return); ok {
+				// failure returns do not count
+				ei := core.ErrResultIndex(x.Parent().Signature)
+				if ei < 0 || core.IsNilConst(core.ReturnOperand(r, ei)) {
+					esc = p.InstrPos(r)
+				}
+				return
+			}
+			for _, s := range x.Succs {
+				if seen[s] {
+					continue
+				}
+				seen[s] = true
+				has := false
+				for _, in := range s.Instrs {
+					if partner(in) {
+						has = true
+					}
+				}
+				if !has {
+					dfs(s)
+				}
+			}
+		}
+		dfs(b)
+		return esc
+	}
+	n := 0
+	for _, fn := range p.LibFuncs() {
+		if !inPkg(fn) {
+			continue
+		}
+		k := 0
+		for _, b := range fn.Blocks {
+			for _, in := range b.Instrs {
+				f, _, val := core.StoreField(in)
+				if f == nil || f.Name() != "size" {
+					continue
+				}
+				bo, ok := val.(*ssa.BinOp)
+				if !ok || (bo.Op != token.ADD && bo.Op != token.SUB) {
+					continue
+				}
+				if c1, ok := constInt(bo.Y); !ok || c1 != 1 {
+					continue
+				}
+				n++
+				k++
+				metaPut := func(i ssa.Instruction) bool {
+					c, ok := i.(*ssa.Call)
+					return ok && isPut(c) && len(c.Common().Args) >= 3 && fromEncode(c.Common().Args[2])
+				}
+				esc := avoid(in, metaPut)
+				rep.Check(esc == "", "DT4", fmt.Sprintf("size-persisted:%s#%d", core.FuncKey(fn), k), "the changed size is written back", p.InstrPos(in), "the size changed at "+p.InstrPos(in)+" reaches the success return at "+esc+" without the metadata being written back: the next command reads the old size", true)
+				// element partner (list pops keep their element record: only the cursor moves)
+				moves := false
+				for _, bb := range fn.Blocks {
+					for _, ii := range bb.Instrs {
+						if ff, _, vv := core.StoreField(ii); ff != nil && ff != f {
+							if b2, ok := vv.(*ssa.BinOp); ok && (b2.Op == token.ADD || b2.Op == token.SUB) {
+								if lf, _ := core.LoadedField(b2.X); lf == ff {
+									if bt, ok := ff.Type().Underlying().(*types.Basic); ok && (bt.Kind() == types.Uint64 || bt.Kind() == types.Int64) {
+										moves = true
+									}
+								}
+							}
+						}
+					}
+				}
+				if moves && bo.Op == token.SUB {
+					continue
+				}
+				var elem func(i ssa.Instruction) bool
+				what := ""
+				if bo.Op == token.SUB {
+					elem = func(i ssa.Instruction) bool { c, ok := i.(*ssa.Call); return ok && isDel(c) }
+					what = "an engine Delete of the element"
+				} else {
+					elem = func(i ssa.Instruction) bool {
+						c, ok := i.(*ssa.Call)
+						return ok && isPut(c) && len(c.Common().Args) >= 3 && !fromEncode(c.Common().Args[2])
+					}
+					what = "an engine Put of the element"
+				}
+				esc2 := avoid(in, elem)
+				// the element operation may also precede the size change
+				if esc2 != "" {
+					for _, bb := range fn.Blocks {
+						for _, ii := range bb.Instrs {
+							if elem(ii) && before(ii, in) {
+								esc2 = ""
+							}
+						}
+					}
+				}
+				rep.Check(esc2 == "", "DT4", fmt.Sprintf("size-with-element:%s#%d", core.FuncKey(fn), k), "the size changes together with the element", p.InstrPos(in), "the size changed at "+p.InstrPos(in)+" reaches the success return at "+esc2+" without "+what, true)
+			}
+		}
+	}
+	// converse: an element removed inside a batch is paired with a size decrease in the same function
+	for _, fn := range p.LibFuncs() {
+		if !inPkg(fn) {
+			continue
+		}
+		k := 0
+		for _, b := range fn.Blocks {
+			for _, in := range b.Instrs {
+				c, ok := in.(*ssa.Call)
+				if !ok || !isDel(c) {
+					continue
+				}
+				if f := c.Common().StaticCallee(); core.RecvNamed(f) != R.Batch {
+					continue
+				}
+				k++
+				has := false
+				// a replacement (delete the old element key, put the new one) keeps the size
+				if avoid(in, func(i ssa.Instruction) bool {
+					c2, ok := i.(*ssa.Call)
+					return ok && isPut(c2) && len(c2.Common().Args) >= 3 && !fromEncode(c2.Common().Args[2])
+				}) == "" {
+					has = true
+				}
+				for _, bb := range fn.Blocks {
+					for _, ii := range bb.Instrs {
+						if f, _, val := core.StoreField(ii); f != nil && f.Name() == "size" {
+							if bo, ok := val.(*ssa.BinOp); ok && bo.Op == token.SUB && (before(ii, in) || ii.Block() == in.Block()) {
+								has = true
+							}
+						}
+					}
+				}
+				rep.Check(has, "DT4", fmt.Sprintf("element-delete-with-size:%s#%d", core.FuncKey(fn), k), "an element removed in a batch lowers the stored size", p.InstrPos(in), "the element deleted at "+p.InstrPos(in)+" is not accompanied by a decrease of the metadata's size: counts stay too high", true)
+			}
+		}
+	}
+	if n == 0 {
+		rep.Unk("VAC", "DT4", "expected size updates in package datatype", "", "found none")
+	}
+}
+
+// ---- DT2: internal-key encoders write every field -----------------------------------------------------------
+
+func dt2EncodersUseFields(p *core.Prog, rep *core.Report) {
+	rep.Rule("DT2", "internal-key encoders write every field: in each encode method of a key / metadata struct of package datatype, every field of the receiver reaches the output as data - as the source of a copy / append, or (through conversions) as an argument of a Put* / Append* / float conversion - and not only through len(); a field that only contributes its length leaves zeros where the key bytes belong, so distinct user keys share internal keys")
+	n := 0
+	usedBy := map[*types.Struct]map[*types.Var]bool{}
+	names := map[*types.Struct]string{}
+	for _, fn := range p.LibFuncs() {
+		if fn.Package() == nil || fn.Package().Pkg.Path() != core.ModPath+"/datatype" || !strings.HasPrefix(fn.Name(), "encode") {
+			continue
+		}
+		recv := core.RecvNamed(fn)
+		if recv == nil {
+			continue
+		}
+		st, ok := recv.Underlying().(*types.Struct)
+		if !ok {
+			continue
+		}
+		used := map[*types.Var]bool{}
+		loaded := map[*types.Var]bool{}
+		var asData func(v ssa.Value, d int) bool
+		asData = func(v ssa.Value, d int) bool {
+			if d > 4 || v.Referrers() == nil {
+				return false
+			}
+			for _, r := range *v.Referrers() {
+				switch t := r.(type) {
+				case *ssa.Call:
+					if bi, ok := t.Call.Value.(*ssa.Builtin); ok {
+						if bi.Name() == "len" || bi.Name() == "cap" {
+							continue
+						}
+						return true // copy / append
+					}
+					return true
+				case *ssa.Convert, *ssa.ChangeType, *ssa.Slice, *ssa.MakeInterface:
+					if asData(t.(ssa.Value), d+1) {
+						return true
+					}
+				case *ssa.BinOp:
+					// arithmetic on a numeric field that then flows on (scores, versions); comparisons do not count
+					switch t.Op {
+					case token.EQL, token.NEQ, token.LSS, token.LEQ, token.GTR, token.GEQ:
+					default:
+						if asData(t, d+1) {
+							return true
+						}
+					}
+				case *ssa.Store:
+					if t.Val == v {
+						return true
+					}
+				}
+			}
+			return false
+		}
+		for _, b := range fn.Blocks {
+			for _, in := range b.Instrs {
+				u, ok := in.(*ssa.UnOp)
+				if !ok {
+					continue
+				}
+				f, _ := core.LoadedField(u)
+				if f == nil || fieldOwnerStruct(f) != st {
+					continue
+				}
+				loaded[f] = true
+				if asData(u, 0) {
+					used[f] = true
+				}
+			}
+		}
+		if usedBy[st] == nil {
+			usedBy[st] = map[*types.Var]bool{}
+		}
+		for f := range used {
+			usedBy[st][f] = true
+		}
+		names[st] = recv.Obj().Name()
+		var bad []string
+		for i := 0; i < st.NumFields(); i++ {
+			f := st.Field(i)
+			if loaded[f] && !used[f] {
+				bad = append(bad, f.Name())
+			}
+		}
+		if len(loaded) == 0 {
+			continue
+		}
+		n++
+		rep.Check(len(bad) == 0, "DT2", "encoder-writes-fields:"+core.FuncKey(fn), "every field the encoder looks at is written as data", p.Pos(fn.Pos()), "field(s) "+strings.Join(bad, ", ")+" only contribute a length / a comparison: their bytes never reach the encoded key", true)
+	}
+	for st, u := range usedBy {
+		var miss []string
+		for i := 0; i < st.NumFields(); i++ {
+			if !u[st.Field(i)] {
+				miss = append(miss, st.Field(i).Name())
+			}
+		}
+		rep.Check(len(miss) == 0, "DT2", "all-fields-encoded:"+names[st], "every field of the struct is written by one of its encoders", "", "no encoder of "+names[st]+" writes field(s) "+strings.Join(sortedStr(miss), ", ")+": two keys that differ only there collide", true)
+	}
+	_ = n
+}
+
+// ---- ERR1: an error is wrapped only where it exists -------------------------------------------------------------
+
+func err1WrapPolarity(p *core.Prog, rep *core.Report) {
+	rep.Rule("ERR1", "error polarity: no library function returns fmt.Errorf(..., err) on the edge where that err was just found to be nil - a flipped test (`err == nil` for `err != nil`) turns every success of the callee into a failure of the caller and lets real failures through")
+	n := 0
+	var bad []string
+	for _, fn := range p.LibFuncs() {
+		ei := core.ErrResultIndex(fn.Signature)
+		if ei < 0 {
+			continue
+		}
+		for _, b := range fn.Blocks {
+			iff, ok := b.Instrs[len(b.Instrs)-1].(*ssa.If)
+			if !ok {
+				continue
+			}
+			bo, ok := iff.Cond.(*ssa.BinOp)
+			if !ok || (bo.Op != token.EQL && bo.Op != token.NEQ) {
+				continue
+			}
+			var e ssa.Value
+			if core.IsNilConst(bo.Y) {
+				e = bo.X
+			} else if core.IsNilConst(bo.X) {
+				e = bo.Y
+			}
+			if e == nil || !core.IsErrorType(e.Type()) {
+				continue
+			}
+			n++
+			nilEdge := bo.Op == token.EQL
+			for _, r := range core.Returns(fn) {
+				if !edgeDominates(iff, nilEdge, r.Block()) {
+					continue
+				}
+				for _, o := range core.Origins(core.ReturnOperand(r, ei)) {
+					c, ok := o.(*ssa.Call)
+					if !ok || !core.StaticCalleeIs(c.Common(), "fmt.Errorf") {
+						continue
+					}
+					// is e among the variadic arguments?
+					uses := false
+					var walk func(v ssa.Value, d int)
+					walk = func(v ssa.Value, d int) {
+						if d > 6 || uses {
+							return
+						}
+						if v == e {
+							uses = true
+							return
+						}
+						switch t := v.(type) {
+						case *ssa.Slice:
+							walk(t.X, d+1)
+						case *ssa.MakeInterface:
+							walk(t.X, d+1)
+						case *ssa.ChangeInterface:
+							walk(t.X, d+1)
+						case *ssa.Alloc:
+							for _, rr := range *t.Referrers() {
+								if ia, ok := rr.(*ssa.IndexAddr); ok {
+									for _, r2 := range *ia.Referrers() {
+										if st, ok := r2.(*ssa.Store); ok {
+											walk(st.Val, d+1)
+										}
+									}
+								}
+							}
+						}
+					}
+					for _, a := range c.Common().Args {
+						walk(a, 0)
+					}
+					if uses {
+						bad = append(bad, fmt.Sprintf("%s returns a wrapped error at %s on the edge where the wrapped error is nil (test at %s)", core.FuncKey(fn), p.InstrPos(r), p.InstrPos(iff)))
+					}
+				}
+			}
+		}
+	}
+	if n == 0 {
+		return
+	}
+	rep.Check(len(bad) == 0, "ERR1", "wrap-on-non-nil-edge", fmt.Sprintf("none of the %d error tests wraps the error on its nil edge", n), "", strings.Join(sortedStr(bad), "; "), true)
+}
+
+// ---- CP2: Backup copies -----------------------------------------------------------------------------------------
+
+func cp2BackupCopies(p *core.Prog, rep *core.Report) {
+	rep.Rule("CP2", "Backup copies: every success return of DB.Backup is dominated by the call of the directory copy (an early `return nil` - or `return err` on the nil edge of a preparatory step - reports a backup that was never taken)")
+	bk := p.MustMethod(p.R.DB, "Backup")
+	cpy := p.Func(core.ModPath+"/utils", "CopyDir")
+	if cpy == nil {
+		return
+	}
+	var call ssa.Instruction
+	for _, b := range bk.Blocks {
+		for _, in := range b.Instrs {
+			if c, ok := in.(*ssa.Call); ok && c.Common().StaticCallee() == cpy {
+				call = in
+			}
+		}
+	}
+	if call == nil {
+		rep.Bad("CP2", "backup-copies", "Backup calls the directory copy", p.Pos(bk.Pos()), "no call of utils.CopyDir in Backup")
+		return
+	}
+	var bad []string
+	ei := core.ErrResultIndex(bk.Signature)
+	for _, r := range core.Returns(bk) {
+		op := core.ReturnOperand(r, ei)
+		// returns of the copy's own result are the normal end
+		isCopyResult := false
+		for _, o := range core.Origins(op) {
+			if o == ssa.Value(call.(*ssa.Call)) {
+				isCopyResult = true
+			}
+		}
+		if isCopyResult || before(call, r) {
+			continue
+		}
+		// a return before the copy must be a failure: its operand non-nil on that path
+		provablyFailure := false
+		for _, b := range bk.Blocks {
+			iff, ok := b.Instrs[len(b.Instrs)-1].(*ssa.If)
+			if !ok {
+				continue
+			}
+			bo, ok := iff.Cond.(*ssa.BinOp)
+			if !ok || (bo.Op != token.EQL && bo.Op != token.NEQ) {
+				continue
+			}
+			var e ssa.Value
+			if core.IsNilConst(bo.Y) {
+				e = bo.X
+			} else if core.IsNilConst(bo.X) {
+				e = bo.Y
+			}
+			if e == nil {
+				continue
+			}
+			if e == op && edgeDominates(iff, bo.Op == token.NEQ, r.Block()) {
+				provablyFailure = true
+			}
+		}
+		if c, ok := op.(*ssa.Const); ok && c.Value == nil {
+			// literal nil before the copy: allowed only for the "nothing to back up" guard on a nil active file
+			guard := false
+			for _, b := range bk.Blocks {
+				if iff, ok := b.Instrs[len(b.Instrs)-1].(*ssa.If); ok {
+					if bo, ok := iff.Cond.(*ssa.BinOp); ok && bo.Op == token.EQL {
+						if f, _ := core.LoadedField(bo.X); f == p.R.DBActive && core.IsNilConst(bo.Y) && edgeDominates(iff, true, r.Block()) {
+							guard = true
+						}
+					}
+				}
+			}
+			if guard {
+				continue
+			}
+		}
+		if !provablyFailure {
+			bad = append(bad, "return at "+p.InstrPos(r)+" is reached before the copy and is not provably a failure")
+		}
+	}
+	rep.Check(len(bad) == 0, "CP2", "backup-copies", "every success return of Backup follows the copy", p.Pos(bk.Pos()), strings.Join(bad, "; "), true)
+}
+
+// ---- CL1b: the closing loop is complete -----------------------------------------------------------------------
+
+func cl1bCloseLoopComplete(p *core.Prog, rep *core.Report) {
+	R := p.R
+	rep.Rule("CL1b", "the closing loop is complete: the loop of DB.Close over the rotated files is left only by its condition or on the failure edge of a Close error (a return on the success edge closes the first file only)")
+	cl := p.MustMethod(R.DB, "Close")
+	dfClose := p.MustMethod(R.DataFile, "Close")
+	for _, lp := range naturalLoops(cl) {
+		var closeCall *ssa.Call
+		for b := range lp.body {
+			for _, in := range b.Instrs {
+				if c, ok := in.(*ssa.Call); ok && c.Common().StaticCallee() == dfClose {
+					closeCall = c
+				}
+			}
+		}
+		if closeCall == nil {
+			continue
+		}
+		var bad []string
+		for b := range lp.body {
+			if b == lp.header {
+				continue
+			}
+			for si, sb := range b.Succs {
+				if lp.body[sb] {
+					continue
+				}
+				// an exit from the body: only the failure edge of the Close error may leave
+				okr := false
+				if iff, isIf := b.Instrs[len(b.Instrs)-1].(*ssa.If); isIf {
+					if bo, isBo := iff.Cond.(*ssa.BinOp); isBo && (core.IsNilConst(bo.X) || core.IsNilConst(bo.Y)) {
+						e := bo.X
+						if core.IsNilConst(bo.X) {
+							e = bo.Y
+						}
+						if e == ssa.Value(closeCall) {
+							nonNilIdx := 0
+							if bo.Op == token.EQL {
+								nonNilIdx = 1
+							}
+							okr = si == nonNilIdx
+						}
+					}
+				}
+				if !okr {
+					bad = append(bad, "the loop is left at "+p.InstrPos(b.Instrs[len(b.Instrs)-1])+" on an edge that is not the failure edge of the Close error")
+				}
+			}
+		}
+		rep.Check(len(bad) == 0, "CL1b", "close-loop-complete:"+core.FuncKey(cl), "every rotated file is closed", p.Pos(cl.Pos()), strings.Join(bad, "; ")+": files after the first stay open (memory-mapped files keep their 512 MiB size and the next Open fails)", true)
+	}
+}
+
+// ---- IT2: what the prefix filter lets through -----------------------------------------------------------------
+
+func it2FilterPolarity(p *core.Prog, rep *core.Report) {
+	R := p.R
+	rep.Rule("IT2", "the prefix filter stops exactly on keys that carry the prefix: in the filter method, (a) the scan over the index iterator is reached on the edge where a prefix is set (length != 0), (b) the scan is left (not through its Valid condition) only on the edge where the prefix comparison says 'equal', (c) the length guard of that comparison holds when key and prefix have the same length, and (d) the guard's failing edge continues the scan")
+	var filter *ssa.Function
+	ms := p.SSA.MethodSets.MethodSet(types.NewPointer(R.Iterator))
+	for i := 0; i < ms.Len(); i++ {
+		fn := p.SSA.MethodValue(ms.At(i))
+		if fn == nil || fn.Blocks == nil {
+			continue
+		}
+		for _, b := range fn.Blocks {
+			for _, in := range b.Instrs {
+				if u, ok := in.(*ssa.UnOp); ok {
+					if f, _ := core.LoadedField(u); f != nil && f.Name() == "Prefix" {
+						filter = fn
+					}
+				}
+			}
+		}
+	}
+	if filter == nil {
+		return
+	}
+	loops := naturalLoops(filter)
+	if len(loops) == 0 {
+		rep.Bad("IT2", "filter-scan", "the filter scans", p.Pos(filter.Pos()), "no loop in the prefix filter")
+		return
+	}
+	lp := loops[0]
+	var bad []string
+	isLenOfPrefix := func(v ssa.Value) bool {
+		for _, o := range core.Origins(v) {
+			if a := lenOf(o); a != nil {
+				if f, _ := core.LoadedField(a); f != nil && f.Name() == "Prefix" {
+					return true
+				}
+			}
+		}
+		return false
+	}
+	for _, b := range filter.Blocks {
+		iff, ok := b.Instrs[len(b.Instrs)-1].(*ssa.If)
+		if !ok {
+			continue
+		}
+		bo, isBo := iff.Cond.(*ssa.BinOp)
+		inLoop := lp.body[b]
+		switch {
+		case !inLoop && isBo && (bo.Op == token.EQL || bo.Op == token.NEQ) && isLenOfPrefix(bo.X):
+			if k, ok := constInt(bo.Y); ok && k == 0 {
+				// (a)
+				setIdx := 1 // successor index on which a prefix is set
+				if bo.Op == token.NEQ {
+					setIdx = 0
+				}
+				onSet, onUnset := b.Succs[setIdx], b.Succs[1-setIdx]
+				reaches := func(x *ssa.BasicBlock) bool { return x == lp.header || lp.body[x] || x.Dominates(lp.header) }
+				if !reaches(onSet) || reaches(onUnset) {
+					bad = append(bad, "the scan is not on the 'prefix set' edge of the test at "+p.InstrPos(iff)+": with a prefix the filter returns at once")
+				}
+			}
+		case inLoop && isBo:
+			// comparison result with 0, or length guard
+			if c, ok := bo.X.(*ssa.Call); ok && core.StaticCalleeIs(c.Common(), "bytes.Compare") {
+				if k, ok := constInt(bo.Y); ok && k == 0 {
+					matchEdge := 0
+					switch bo.Op {
+					case token.EQL:
+						matchEdge = 0
+					case token.NEQ:
+						matchEdge = 1
+					default:
+						bad = append(bad, "the prefix comparison at "+p.InstrPos(iff)+" is not an equality test")
+						continue
+					}
+					if lp.body[b.Succs[matchEdge]] {
+						bad = append(bad, "the 'equal' edge of the prefix comparison at "+p.InstrPos(iff)+" continues the scan: matching keys are skipped")
+					}
+					if !lp.body[b.Succs[1-matchEdge]] {
+						bad = append(bad, "the 'different' edge of the prefix comparison at "+p.InstrPos(iff)+" leaves the scan: the iterator stops on a key without the prefix")
+					}
+				}
+				continue
+			}
+			if isLenOfPrefix(bo.X) || isLenOfPrefix(bo.Y) {
+				// (c) holds at equal lengths
+				op := bo.Op
+				if isLenOfPrefix(bo.Y) && !isLenOfPrefix(bo.X) {
+					switch op {
+					case token.LSS:
+						op = token.GTR
+					case token.LEQ:
+						op = token.GEQ
+					case token.GTR:
+						op = token.LSS
+					case token.GEQ:
+						op = token.LEQ
+					}
+				}
+				if op != token.LEQ && op != token.GEQ && op != token.EQL {
+					bad = append(bad, "the length guard at "+p.InstrPos(iff)+" fails when the key is exactly the prefix")
+				}
+				// (d) the true edge leads on inside the loop (to the comparison), the false edge continues the scan; neither leaves it
+				if !lp.body[b.Succs[0]] || !lp.body[b.Succs[1]] {
+					bad = append(bad, "an edge of the length guard at "+p.InstrPos(iff)+" leaves the scan: the iterator stops on a key that was not compared with the prefix")
+				}
+			}
+		case inLoop && !isBo:
+			// bytes.HasPrefix / bytes.Equal used directly as the condition
+			if c, ok := iff.Cond.(*ssa.Call); ok && (core.StaticCalleeIs(c.Common(), "bytes.HasPrefix") || core.StaticCalleeIs(c.Common(), "bytes.Equal")) {
+				if lp.body[b.Succs[0]] {
+					bad = append(bad, "the 'match' edge of the prefix test at "+p.InstrPos(iff)+" continues the scan")
+				}
+				if !lp.body[b.Succs[1]] {
+					bad = append(bad, "the 'no match' edge of the prefix test at "+p.InstrPos(iff)+" leaves the scan")
+				}
+			}
+		}
+	}
+	rep.Check(len(bad) == 0, "IT2", "filter-polarity:"+core.FuncKey(filter), "the filter stops on matching keys only, and on all of them", p.Pos(filter.Pos()), strings.Join(sortedStr(bad), "; "), true)
+}
